@@ -20,6 +20,7 @@ checks={
  "C17":("exploration","simhost","after the fault phase a fair fault-free schedule must produce a leader, complete fresh requests and bring every member to the commit index within a stated tick budget", SIMHOST),
  "C18":("exploration","simhost","replicas whose own applied membership does not list them as voters must never be candidate/leader; explored over cluster shapes with non-voting members and witnesses", SIMHOST),
  "C19":("exploration","l0","real entryLog+LogReader driven against a slice model of the logical log after every operation", L0),
+ "C20":("exploration","simhost","seeded history, RequestSnapshot(Exported) at a random point, more history, loss of all hosts, tools.ImportSnapshot on every listed host with a tape-chosen member list (subset/fresh/single; invalid lists; damaged export directory), restart: membership must equal the list with unlisted old members removed, every replica must recover exactly the exported state, a leader must emerge and new proposals complete; refused imports must leave the disk byte-identical", SIMHOST),
 }
 notes={
  "C13":"the pure codec clause over all inputs is not a simulation target; only generated boundary-heavy values are exercised",
